@@ -251,6 +251,7 @@ def step (c : Cfg) (src : Str) (pm sm : List MR) (nonUnit : List (Nat × Nat)) (
 def coreLoop (c : Cfg) (src : Str) (pm sm : List MR) (nonUnit : List (Nat × Nat)) (nums : List Num) : St :=
   nums.foldl (step c src pm sm nonUnit) St.init
 
+-- no correspondence: coreLoopSticky stepSticky: the number loop BEFORE fix f41005087, kept only for the regression theorem nwu_prefix_only_suppressed_witness; the working tree no longer contains that code (coreLoop is the tied one: ux.extract)
 /-- the number loop before fix f41005087 -/
 def coreLoopSticky (c : Cfg) (src : Str) (pm sm : List MR) (nonUnit : List (Nat × Nat)) (nums : List Num) : St :=
   nums.foldl (stepSticky c src pm sm nonUnit) St.init
